@@ -177,6 +177,65 @@ Qed.
     rewrite E2. reflexivity.
   Qed.
 
+(* ---- the size field of the filtered codec: LZMAX86.Encode hands the FILTERED copy to the
+   inner encoder, whose size field therefore speaks of the filtered data; the filter keeps
+   the length, so the header of LZMAX86 output carries the length of the original input. ---- *)
+
+Lemma patch_size_inv x e e' : zlen x < 2^64 -> patch_size x e = Ok e' ->
+  lzma_header_len <= zlen e' /\ rd lzma_size_off 8 e' = zlen x.
+Proof.
+  intros Hs H. unfold patch_size in H.
+  destruct (zlen e <? lzma_header_len) eqn:El; [discriminate H|].
+  assert (Hl : lzma_header_len <= zlen e) by lia.
+  destruct (patch_size_l x e Hl Hs) as (e2 & E2 & Hlen & Hrd & _).
+  unfold patch_size in E2. rewrite El in E2. rewrite H in E2. inversion E2; subst e2.
+  split; [lia | exact Hrd].
+Qed.
+
+Lemma lzma_encode_sized (lz_run : bool -> bytes -> outcome bytes) :
+  forall y e, zlen y < 2^64 -> lzma_encode lz_run y = Ok e ->
+  lzma_header_len <= zlen e /\ rd lzma_size_off 8 e = zlen y.
+Proof.
+  intros y e Hs H. unfold lzma_encode in H.
+  destruct (lz_run (zlen y =? 0) y) as [r| | |]; cbn [bind] in H; try discriminate H.
+  exact (patch_size_inv y r e Hs H).
+Qed.
+
+Lemma syslzma_encode_sized (xz_run : bytes -> outcome bytes) :
+  forall y e, zlen y < 2^64 -> syslzma_encode xz_run y = Ok e ->
+  lzma_header_len <= zlen e /\ rd lzma_size_off 8 e = zlen y.
+Proof.
+  intros y e Hs H. unfold syslzma_encode in H.
+  destruct (xz_run y) as [r| | |]; cbn [bind] in H; try discriminate H.
+  exact (patch_size_inv y r e Hs H).
+Qed.
+
+Lemma lzmax86_header_l (c_enc : bytes -> outcome bytes) x e :
+  (forall y r, zlen y = zlen x -> c_enc y = Ok r ->
+     lzma_header_len <= zlen r /\ rd lzma_size_off 8 r = zlen y) ->
+  lzmax86_encode c_enc x = Ok e ->
+  lzma_header_len <= zlen e /\ rd lzma_size_off 8 e = zlen x.
+Proof.
+  intros Hc H. unfold lzmax86_encode in H.
+  destruct (x86_convert_total true 0 0 x) as (d & st' & ret & E & Hlen).
+  rewrite E in H. cbn [bind] in H.
+  destruct (Hc d e Hlen H) as [H1 H2]. split; [exact H1|]. rewrite H2. exact Hlen.
+Qed.
+
+Lemma lzmax86_lzma_header_l (lz_run : bool -> bytes -> outcome bytes) x e : zlen x < 2^64 ->
+  lzmax86_encode (lzma_encode lz_run) x = Ok e ->
+  lzma_header_len <= zlen e /\ rd lzma_size_off 8 e = zlen x.
+Proof.
+  intros Hs. apply lzmax86_header_l. intros y r Hy. apply lzma_encode_sized. lia.
+Qed.
+
+Lemma lzmax86_syslzma_header_l (xz_run : bytes -> outcome bytes) x e : zlen x < 2^64 ->
+  lzmax86_encode (syslzma_encode xz_run) x = Ok e ->
+  lzma_header_len <= zlen e /\ rd lzma_size_off 8 e = zlen x.
+Proof.
+  intros Hs. apply lzmax86_header_l. intros y r Hy. apply syslzma_encode_sized. lia.
+Qed.
+
 (* ---- histories: result i depends on argument i only ---- *)
 
 Lemma call_history_nth {A B : Type} (f : A -> B) xs i x :
